@@ -47,15 +47,20 @@ Definition parse_ident (ts : toks) : result (string * toks) :=
 Definition restricted_head (inner : toks) : bool :=
   match inner with
   | [TId k] => String.eqb k "crate" || String.eqb k "self" || String.eqb k "super"
-  | TId "in" :: _ => true
+  | TId k :: _ => String.eqb k "in"
   | _ => false
   end.
 
 Definition parse_vis (ts : toks) : vis * toks :=
   match ts with
-  | TId "pub" :: TG Paren inner :: rest =>
-      if restricted_head inner then ([TId "pub"; TG Paren inner], rest) else ([TId "pub"], TG Paren inner :: rest)
-  | TId "pub" :: rest => ([TId "pub"], rest)
+  | TId p :: rest =>
+      if String.eqb p "pub" then
+        match rest with
+        | TG Paren inner :: rest' =>
+            if restricted_head inner then ([TId "pub"; TG Paren inner], rest') else ([TId "pub"], rest)
+        | _ => ([TId "pub"], rest)
+        end
+      else ([], ts)
   | _ => ([], ts)
   end.
 
@@ -79,45 +84,54 @@ Definition unknown_option (name : string) : err :=
 (** [parse_eq_bool]: optional [= true|false], default [true] *)
 Definition parse_eq_bool (ts : toks) : result (bool * toks) :=
   match ts with
-  | TP "="%char :: TId "true" :: rest => Ok (true, rest)
-  | TP "="%char :: TId "false" :: rest => Ok (false, rest)
-  | TP "="%char :: _ => Err ESyn
+  | TP c :: rest =>
+      if Ascii.eqb c "="%char then
+        match rest with
+        | TId v :: r => if String.eqb v "true" then Ok (true, r)
+                        else if String.eqb v "false" then Ok (false, r) else Err ESyn
+        | _ => Err ESyn
+        end
+      else Ok (true, ts)
   | _ => Ok (true, ts)
   end.
 
 Definition parse_eq_delegate_by (ts : toks) : result (delegate * toks) :=
   match ts with
-  | TP "="%char :: TId "ref" :: rest => Ok (ByRef RAsRef, rest)
-  | TP "="%char :: rest =>
-      let* (name, rest') := parse_ident rest in
-      (* "Self" is a keyword for syn's Ident parser, so that arm of the Rust match is dead *)
-      if String.eqb name "Self" then Ok (BySelf, rest')
-      else if String.eqb name "Borrow" then Ok (ByRef RBorrow, rest')
-      else Ok (ByTrait name, rest')
+  | TP c :: rest =>
+      if Ascii.eqb c "="%char then
+        if match rest with TId x :: _ => String.eqb x "ref" | _ => false end
+        then Ok (ByRef RAsRef, tl rest)
+        else
+          let* (name, rest') := parse_ident rest in
+          (* "Self" is a keyword for syn's Ident parser, so that arm of the Rust match is dead *)
+          if String.eqb name "Self" then Ok (BySelf, rest')
+          else if String.eqb name "Borrow" then Ok (ByRef RBorrow, rest')
+          else Ok (ByTrait name, rest')
+      else Ok (BySelf, ts)
   | _ => Ok (BySelf, ts)
   end.
 
 (** [impl Parse for EntraitOpt] *)
+Definition starts_with_punct (c : ascii) (ts : toks) : bool :=
+  match ts with TP x :: _ => Ascii.eqb x c | _ => false end.
+
 Definition parse_opt (ts : toks) : result (eopt * toks) :=
-  match ts with
-  | TP "?"%char :: rest =>
-      let* (name, rest') := parse_ident rest in
+  if starts_with_punct "?"%char ts then
+      let* (name, rest') := parse_ident (tl ts) in
       if String.eqb name "Send" then Ok (OMaybeSend false, rest') else Err (unknown_option name)
-  | _ =>
+  else
       let* (name, rest) := parse_ident ts in
       if String.eqb name "no_deps" then let* (b, r) := parse_eq_bool rest in Ok (ONoDeps b, r)
       else if String.eqb name "debug" then let* (b, r) := parse_eq_bool rest in Ok (ODebug b, r)
       else if String.eqb name "delegate_by" then let* (d, r) := parse_eq_delegate_by rest in Ok (ODelegateBy d, r)
       else if String.eqb name "export" then let* (b, r) := parse_eq_bool rest in Ok (OExport b, r)
       else if String.eqb name "mock_api" then
-             match rest with
-             | TP "="%char :: rest' => let* (n, r) := parse_ident rest' in Ok (OMockApi n, r)
-             | _ => Err ESyn
-             end
+             if starts_with_punct "="%char rest
+             then let* (n, r) := parse_ident (tl rest) in Ok (OMockApi n, r)
+             else Err ESyn
       else if String.eqb name "unimock" then let* (b, r) := parse_eq_bool rest in Ok (OUnimock b, r)
       else if String.eqb name "mockall" then let* (b, r) := parse_eq_bool rest in Ok (OMockall b, r)
-      else Err (unknown_option name)
-  end.
+      else Err (unknown_option name).
 
 Record opts := mkOpts {
   o_no_deps : option bool;
@@ -166,15 +180,16 @@ Definition set_fn_opt (o : opts) (e : eopt) : result opts :=
 Fixpoint fn_attr_loop (fuel : nat) (ts : toks) (o : opts) : result opts :=
   match ts with
   | [] => Ok o
-  | TP ","%char :: rest =>
-      match fuel with
-      | O => OutOfDomain "fuel"
-      | S k =>
-          let* (e, rest') := parse_opt rest in
-          let* o' := set_fn_opt o e in
-          fn_attr_loop k rest' o'
-      end
-  | _ => Err ESyn
+  | _ =>
+      if starts_with_punct ","%char ts then
+        match fuel with
+        | O => OutOfDomain "fuel"
+        | S k =>
+            let* (e, rest') := parse_opt (tl ts) in
+            let* o' := set_fn_opt o e in
+            fn_attr_loop k rest' o'
+        end
+      else Err ESyn
   end.
 
 Definition parse_fn_attr (ts : toks) : result fn_attr :=
@@ -209,10 +224,7 @@ Fixpoint opt_loop {S} (set : S -> eopt -> result S) (fuel : nat) (ts : toks) (st
   | S k =>
       let* (e, rest) := parse_opt ts in
       let* st' := set st e in
-      match rest with
-      | TP ","%char :: rest' => opt_loop set k rest' st'
-      | _ => Ok (st', rest)
-      end
+      if starts_with_punct ","%char rest then opt_loop set k (tl rest) st' else Ok (st', rest)
   end.
 
 Definition is_ok {A} (r : result A) : bool := match r with Ok _ => true | _ => false end.
@@ -226,10 +238,7 @@ Definition parse_trait_attr (ts : toks) : result trait_attr :=
         else
           let '(_, r1) := parse_vis ts in
           let* (name, r2) := parse_ident r1 in
-          match r2 with
-          | TP ","%char :: r3 => Ok (Some name, r3)
-          | _ => Ok (Some name, r2)
-          end
+          if starts_with_punct ","%char r2 then Ok (Some name, tl r2) else Ok (Some name, r2)
     end in
   match rest with
   | [] => Ok (mkTraitAttr impl_trait no_opts None)
@@ -242,6 +251,12 @@ Definition parse_trait_attr (ts : toks) : result trait_attr :=
   end.
 
 (** ** #[entrait(ref|dyn ...)] on an impl block: [EntraitSimpleImplAttr] *)
+Definition skip_kw (name : string) (ts : toks) : bool * toks :=
+  match ts with
+  | TId s :: rest => if String.eqb s name then (true, rest) else (false, ts)
+  | _ => (false, ts)
+  end.
+
 Inductive impl_kind := KStatic | KDynRef.
 Record impl_attr := mkImplAttr { ia_kind : impl_kind; ia_opts : opts }.
 
@@ -252,8 +267,8 @@ Definition set_impl_opt (o : opts) (e : eopt) : result opts :=
   end.
 
 Definition parse_impl_attr (ts : toks) : result impl_attr :=
-  let '(has_ref, r1) := match ts with TId "ref" :: r => (true, r) | _ => (false, ts) end in
-  let '(has_dyn, r2) := match r1 with TId "dyn" :: r => (true, r) | _ => (false, r1) end in
+  let '(has_ref, r1) := skip_kw "ref" ts in
+  let '(has_dyn, r2) := skip_kw "dyn" r1 in
   let kind := if has_dyn || has_ref then KDynRef else KStatic in
   match r2 with
   | [] => Ok (mkImplAttr kind no_opts)
